@@ -1,7 +1,7 @@
 #!/venv/bin/python
 """Confirm every seeded breakage against the CURRENT /repo HEAD in a scratch worktree and store it under /verif/seeded/<id>/.
 
-usage: tools/seed_final.py [--jobs 5] [--src /tmp/seed] [--only C04b,C07] [--skip-tests]
+usage: tools/seed_final.py [--jobs 5] [--src /tmp/seed | --from-seeded] [--only C04b,C07] [--skip-tests] [--no-store] [--seed N]
 
 For each <src>/<id>/seed/{patch.diff|patch_ported.diff, demo.py, meta.json}:
   1. git -C /repo worktree add --detach /tmp/sf/<id> HEAD
@@ -21,9 +21,19 @@ ap.add_argument("--jobs", type=int, default=5)
 ap.add_argument("--src", default="/tmp/seed")
 ap.add_argument("--only")
 ap.add_argument("--skip-tests", action="store_true")
+ap.add_argument("--from-seeded", action="store_true", help="take patch/demo/meta from /verif/seeded/<id>/ (the scratch worktrees the sub-agents used are gone)")
 ap.add_argument("--seed", default="1")
 ap.add_argument("--no-store", action="store_true", help="robustness probe: do not touch seeded/ (use with --skip-tests --seed N)")
 a = ap.parse_args()
+if a.from_seeded:
+    a.src = "/tmp/sf_src"
+    shutil.rmtree(a.src, ignore_errors=True)
+    for sid_ in sorted(os.listdir(os.path.join(HERE, "seeded"))):
+        d_ = os.path.join(HERE, "seeded", sid_)
+        if os.path.isdir(d_) and os.path.exists(os.path.join(d_, "patch.diff")):
+            os.makedirs(os.path.join(a.src, sid_, "seed"))
+            for fn_ in ("patch.diff", "demo.py", "meta.json"):
+                shutil.copy(os.path.join(d_, fn_), os.path.join(a.src, sid_, "seed", fn_))
 NOTES = json.load(open(os.path.join(HERE, "tools", "seed_notes.json")))
 WANT = set(json.load(open("/root/.vp/BASELINE.json"))["stable_pass"])
 HEAD = subprocess.run("git -C /repo rev-parse --short HEAD", shell=True, capture_output=True, text=True).stdout.strip()
